@@ -10,10 +10,11 @@ from .npmodel import NpMixin
 from .lazy import LazyMixin
 from .glue import GlueMixin
 from .frame import FrameMixin
+from .gather import GatherMixin
 from .stmts import NORMAL, RETURN, RAISE
 
 
-class Engine(FrameMixin, GlueMixin, LazyMixin, NpMixin, Exec):
+class Engine(FrameMixin, GlueMixin, GatherMixin, LazyMixin, NpMixin, Exec):
     pass
 
 
@@ -48,6 +49,10 @@ def verify_contract(db, cc, target=None, prefix=None, engine_cls=Engine, fixed=N
             v = st.vars.get(nm)
             if isinstance(v, SArr):
                 ex.assignable_cells.add(v.cell)
+            elif type(v).__name__ == "SDs":  # a dataset: all its arrays
+                for d in list(v.vars.values()) + list(v.coords.values()):
+                    if isinstance(getattr(d, "arr", None), SArr):
+                        ex.assignable_cells.add(d.arr.cell)
     ex.setup_objects(st) if hasattr(ex, "setup_objects") else None
     for cl in cc.requires:
         st.assume(as_bool(ex.eval_spec(cl.expr, st)))
